@@ -487,7 +487,7 @@ def drive_search(w: Walk, consumer):
     _drive(w, C(), gen, cfg['on'], lambda m: getattr(m, 'matched', None))
 
 
-def drive_sub(w: Walk, consumer, repl, rng):
+def drive_sub(w: Walk, consumer, repl, rng, always_skip=False):
     from fst import match as M
     cfg = w.cfg
     pat = M.MOR(*w.types) if len(w.types) > 1 else w.types[0]
@@ -503,7 +503,7 @@ def drive_sub(w: Walk, consumer, repl, rng):
         for _ in consumer.park(w, n, lv, can_send=False):
             pass
         mutated = len(w.steps) > before
-        skip = mutated or rng.random() < 0.4
+        skip = always_skip or mutated or rng.random() < 0.4
         state['skip'] = skip
         return skip
 
@@ -619,6 +619,7 @@ while m:
         q
 ''',
     '[a, [b, [c, d], e], [f, g], h]\n',
+    'cfgd = [p0, {**base, k1: v1, **more, k2: [v2, v3]}, q0]\ndef kwf(x, *, a, b=dk, c, d=[dm, dn]):\n    return {**x, a: b}\nlam = [lambda *, a, b=k: a, z]\n',
 ]
 
 FILTERS = [
@@ -723,5 +724,195 @@ def random_case(tid, seed, stats=None):
     if w.aborted:
         if stats is not None:
             stats['aborted_mutation_raised'] = stats.get('aborted_mutation_raised', 0) + 1
+        return None
+    return w
+
+
+# ----------------------------------------------------------------------------------------------------------------------
+# systematic sweep: at EVERY yield position of a small construct, replace / remove EVERY mutable ancestor of the node just
+# yielded (and the walked node itself), for every on x back setting, through walk / search / sub.  The constructs cover
+# each kind of child container, in particular the two list fields of the Python AST that may hold None (`Dict.keys` with
+# `**` spreads, `arguments.kw_defaults` with keyword-only args without default) in leading / middle / trailing position.
+
+SWEEP_NONE_LISTS = [
+    '[p, {**a, k: v}, q]',
+    '[p, {k0: v0, **a, k: v}, q]',
+    '[p, {**a, **b, k: [v, w]}, q]',
+    '[p, {k: v, **a}, q]',
+    'f({**a, k: g(v)}, z)',
+    'x = {**a, k: v, **b, m: n}',
+    'def fn(*, a, b=k): pass',
+    'def fn(x, *, a, b=k, c, d=[m, n]): pass',
+    'def fn(x=y, *, a=j, b, c=k): pass',
+    'async def fn(*args, a, b: int = k, **kw): pass',
+    'fn = [lambda *, a, b=k: a, z]',
+    'class K:\n    def m(self, *, a, b={**s, t: u}): pass',
+]
+SWEEP_GENERIC = [
+    '[a, [b, [c, d], e], f]',
+    'f(a, *b, c=d, **e)',
+    'x = a if b else [c, d]',
+    'x = [i for i in (a, b) if c]',
+    'x = a + b * (c - d)',
+    'x = a < b <= c and d or not e',
+    'x = y[a:b, c]',
+    'x = (a, {b, c}, {d: e})',
+    'if a:\n    b\n    c = [d, e]\nelif f:\n    g\nelse:\n    h',
+    'for i in a:\n    b\n    if c:\n        d\nelse:\n    e',
+    'while a:\n    b\n    c',
+    'try:\n    a\n    b\nexcept E as e:\n    c\nelse:\n    d\nfinally:\n    f',
+    'with a as b, c:\n    d\n    e',
+    'class K(A, m=B):\n    x = 1\n    def f(self, q=[a, b]):\n        return q',
+    '@dec(a)\ndef fn(a, b=[c, d], *e, f=g, **h) -> r:\n    return a',
+    'match a:\n    case [b, c]:\n        d\n    case _:\n        e\n        f',
+    'x = f"{a}{b!r}"',
+    'del a, b[c]',
+    'assert a, [b, c]',
+    'x: List[a] = [b, c]',
+]
+SWEEP_SCOPE = [   # walked with scope=True: nodes handed out by the scope helpers (walrus targets, first iterators, defaults)
+    'def fn():\n    v = [i := j for j in it]\n    w = 1',
+    'def fn():\n    v = [x for x in g(y)]\n    w = 1',
+    'def fn():\n    v = {k: (t := u) for k in h(a, b) if k}\n    return v',
+    'def fn(p=[d1, d2]):\n    g = (m for m in it(z) for n in m)\n    w = lambda u=v: u\n    return g',
+    'class K(B):\n    z = [i for i in rng(q) if (s := i)]\n    y = 2',
+    'def fn(a, b=c):\n    def inner(x=[p, q], *, y, z=r) -> s:\n        return x\n    return inner',
+]
+SWEEP_TYPES = (ast.Name, ast.arg, ast.Constant)
+
+
+def sweep_source(i):
+    """(source, path of the walked node, all settings in the quick tier?, scope=True?)"""
+    tpls = SWEEP_NONE_LISTS + SWEEP_SCOPE + SWEEP_GENERIC
+    return ('pre_stmt\n' + tpls[i] + '\npost_stmt\n', [('body', 1)], i < len(SWEEP_NONE_LISTS) + len(SWEEP_SCOPE),
+            len(SWEEP_NONE_LISTS) <= i < len(SWEEP_NONE_LISTS) + len(SWEEP_SCOPE))
+
+
+N_SWEEP = len(SWEEP_NONE_LISTS) + len(SWEEP_SCOPE) + len(SWEEP_GENERIC)
+
+
+class SweepConsumer:
+    """At yield number `pos` (0-based) mutate the `level`-th mutable ancestor-or-self (0 = nearest ancestor) of the node
+    just yielded with `op`; nothing else."""
+
+    def __init__(self, pos, level, op, snip=1):
+        self.pos, self.level, self.op, self.snip = pos, level, op, snip
+        self.k = 0
+        self.done = None
+
+    def targets(self, w, g):
+        """mutable proper ancestors of g inside the walked subtree (nearest first), then the walked node itself if it is
+        not among them."""
+        nodes = w.nodes[-1]
+        if g is None or g.a is None:
+            return []
+        idx = next((i for i, (n, _) in enumerate(nodes) if n is g.a), None)
+        if idx is None:
+            return []
+        out = []
+        d = nodes[idx][1]
+        j = idx - 1
+        while j >= 0:
+            if nodes[j][1] < d:
+                d = nodes[j][1]
+                out.append(nodes[j][0])
+            j -= 1
+        res = []
+        for a in out:
+            parent, chain = w.parent_of(a)
+            cat = category(a, parent, chain)
+            if cat in ('stmt', 'expr'):
+                res.append((a, cat, parent))
+        return res
+
+    def park(self, w, g, lv, can_send=True):
+        k = self.k
+        self.k += 1
+        if k == self.pos:
+            ts = self.targets(w, g)
+            if self.level == -1 and g is not None and g.a is not None:   # the node just yielded itself
+                parent, chain = w.parent_of(g.a)
+                cat = category(g.a, parent, chain)
+                ts = [(g.a, cat, parent)] if cat is not None and parent is not None else []
+            if (0 if self.level == -1 else self.level) < len(ts):
+                a, cat, parent = ts[0 if self.level == -1 else self.level]
+                op = self.op
+                slot = find_slot(parent, a)
+                if op == 'remove' and (slot is None or slot[1] is None or len(getattr(parent, slot[0])) < 2
+                                       or isinstance(parent, (ast.BoolOp, ast.Compare, ast.Dict, ast.JoinedStr))):
+                    op = None
+                if op is not None:
+                    code = None if op == 'remove' else w.code_for(cat, self.snip)
+                    self.done = w.mutate(op, a, code, w.relation(g.a, a))
+        return
+        yield
+
+
+SWEEP_SETTINGS = [(on, back) for on in ('enter', 'leave', 'both') for back in (False, True)]
+
+
+def sweep_plan(quick, seed):
+    """[(template, api, on, back, pos, level, op)] - positions and ancestor depths from a dry run with the same settings."""
+    plan = []
+    for ti in range(N_SWEEP):
+        src, wpath, none_list, scope = sweep_source(ti)
+        for si, (on, back) in enumerate(SWEEP_SETTINGS):
+            if scope and on != 'enter':
+                continue
+            apis = ['walk']
+            if not quick or none_list or (ti + si + seed) % 3 == 0:
+                pass
+            else:
+                continue  # quick tier: generic constructs get a rotating third of the settings
+            if on != 'both' and (not quick or (ti + si + seed) % 2 == 0):
+                apis += ['search', 'sub']
+            elif on == 'both' and (not quick or none_list):
+                apis += ['search']
+            for api in apis:
+                types = None if api == 'walk' else SWEEP_TYPES
+                cfg = {'on': on, 'back': back, 'recurse': True, 'self': True, 'scope': scope}
+                try:
+                    w = Walk(0, src, wpath, cfg, types, api=api)
+                except SyntaxError:
+                    continue
+                probe = SweepConsumer(-1, 0, None)
+                depths = []
+
+                class P:
+                    def park(self_, w_, g, lv, can_send=True):  # noqa: N805
+                        depths.append(len(probe.targets(w_, g)))
+                        return
+                        yield
+                if api == 'walk':
+                    drive_walk(w, P())
+                elif api == 'search':
+                    drive_search(w, P())
+                else:
+                    drive_sub(w, P(), 'sn', random.Random(0), always_skip=True)
+                for pos, nt in enumerate(depths):
+                    for level in range(nt):
+                        for op in ('replace', 'remove'):
+                            plan.append((ti, api, on, back, pos, level, op))
+                    if scope:
+                        plan.append((ti, api, on, back, pos, -1, 'replace'))
+    return plan
+
+
+def sweep_case(tid, spec):
+    ti, api, on, back, pos, level, op = spec
+    src, wpath, _, scope = sweep_source(ti)
+    types = None if api == 'walk' else SWEEP_TYPES
+    cfg = {'on': on, 'back': back, 'recurse': True, 'self': True, 'scope': scope}
+    w = Walk(tid, src, wpath, cfg, types, api=api, allform='default' if types is None else 'types',
+             exact=(api != 'sub'))
+    w.prog = -100 - ti
+    cons = SweepConsumer(pos, level, op, snip=1 + (pos + level) % 3)
+    if api == 'walk':
+        drive_walk(w, cons)
+    elif api == 'search':
+        drive_search(w, cons)
+    else:
+        drive_sub(w, cons, 'sn', random.Random(0), always_skip=True)
+    if w.aborted or not cons.done:
         return None
     return w
